@@ -143,7 +143,11 @@ def run_case(case):
             r.label('reused_module')
             inv = DTCWTInverse(biort=b, qshift=twin, o_dim=o_, ri_dim=ri_)
             inv((torch.ones(1, 1, 8, 8, dtype=tdt), [lay(torch.ones(1, 1, 6, 8, 8, 2, dtype=tdt)), lay(torch.ones(1, 1, 6, 4, 4, 2, dtype=tdt))]))
-            inv.load_state_dict(DTCWTInverse(biort=ib, qshift=iq, o_dim=o_, ri_dim=ri_).state_dict())
+            fresh = DTCWTInverse(biort=ib, qshift=iq, o_dim=o_, ri_dim=ri_)
+            try:
+                inv.load_state_dict(fresh.state_dict())
+            except RuntimeError:
+                inv = fresh
         else:
             inv = DTCWTInverse(biort=ib, qshift=iq, o_dim=o_, ri_dim=ri_)
     total = dwtu.pyr_total(lo_shape, hi_shapes)
